@@ -10,6 +10,7 @@
  */
 #include "vh.h"
 #include "core/message.c"
+extern int env_alloc_live;
 
 #ifndef CAP
 #define CAP 24
@@ -53,6 +54,31 @@ chunk_inv(const nni_chunk *ch)
 	return 1;
 }
 
+#define OP_ALLOC 11
+#if OP == OP_ALLOC
+/* (ii) nni_msg_alloc(CAP) establishes Inv with the documented headroom rule */
+void
+harness(void)
+{
+	nni_msg *a = NULL;
+	int      rv = nni_msg_alloc(&a, CAP);
+	CHECK(rv == 0 && a != NULL, "alloc succeeds");
+	CHECK(chunk_inv(&a->m_body), "alloc establishes Inv");
+	CHECK(nni_msg_len(a) == CAP, "alloc: length = requested");
+	CHECK(nni_msg_header_len(a) == 0, "alloc: header empty");
+	CHECK(nni_msg_capacity(a) >= nni_msg_len(a), "alloc: capacity >= length");
+	CHECK(nni_atomic_get(&a->m_refcnt) == 1, "alloc: one reference");
+	if ((CAP < 1024) || ((CAP & (CAP - 1)) != 0)) {
+		CHECK((size_t) (a->m_body.ch_ptr - a->m_body.ch_buf) == 32, "alloc: 32 bytes of headroom");
+		CHECK(a->m_body.ch_cap >= (size_t) CAP + 64, "alloc: 32 bytes of tail room");
+	} else {
+		CHECK(a->m_body.ch_ptr == a->m_body.ch_buf, "alloc: large power of two unpadded");
+	}
+	WITNESS("end");
+	nni_msg_free(a);
+	CHECK(env_alloc_live == 0, "free returns all memory");
+}
+#else
 void
 harness(void)
 {
@@ -248,3 +274,4 @@ harness(void)
 #endif
 	WITNESS("end");
 }
+#endif
